@@ -1026,6 +1026,9 @@ def data_get(ctx, fr, hd, key):
             v_ = h.data[c][i][k][1]
             t = ITE(AND(cond, ck), v_, t)
             dom |= set(h.key_dom(k)) if is_sym(v_) else {v_}
+            # NOTE (known approximation, DESIGN 9.5): a string BUILT by the code and stored here is read back with the
+            # universe's alphabet as its domain; tabulating over such a value again is exact only for alphabet values.
+            # Tracking the exact written domains (tried) makes the domains multiply at every rebuild.
     if not is_sym(t):
         return ATOMS.vals[t]
     if len(dom) == 1:
